@@ -76,6 +76,10 @@ Proof. exact generated_deps. Qed.
 Theorem c09_plain_structures_unchanged_u2f_responses : plain_hold raw_decls plain_u2f_responses = true.
 Proof. exact generated_plain_u2f_responses. Qed.
 
+(* the cargo features are independent switches with nothing on by default: a feature set of the model means exactly its cfgs *)
+Theorem c09_feature_table_unchanged : features_hold cargo_features = true.
+Proof. exact generated_features. Qed.
+
 Eval vm_compute in "ASSUMPTIONS c09_parts". Print Assumptions c09_parts.
 Eval vm_compute in "ASSUMPTIONS c09_length_byte_exact". Print Assumptions c09_length_byte_exact.
 Eval vm_compute in "ASSUMPTIONS c09_generated_capacities". Print Assumptions c09_generated_capacities.
@@ -86,3 +90,4 @@ Eval vm_compute in "ASSUMPTIONS c09_pubkey". Print Assumptions c09_pubkey.
 Eval vm_compute in "ASSUMPTIONS c09_modelled_functions_unchanged_u2f_ser". Print Assumptions c09_modelled_functions_unchanged_u2f_ser.
 Eval vm_compute in "ASSUMPTIONS c09_modelled_dependencies_pinned". Print Assumptions c09_modelled_dependencies_pinned.
 Eval vm_compute in "ASSUMPTIONS c09_plain_structures_unchanged_u2f_responses". Print Assumptions c09_plain_structures_unchanged_u2f_responses.
+Eval vm_compute in "ASSUMPTIONS c09_feature_table_unchanged". Print Assumptions c09_feature_table_unchanged.
